@@ -3,14 +3,16 @@
 (* Mechanism-level model of the record cache (DnsCache, src/dns_cache.rs,   *)
 (* with the lifetime arithmetic of DnsRecord, src/dns_parser.rs): one pure   *)
 (* operator per cache operation, over one state value                        *)
-(*   c = [recs : id -> entry,  keys : set of <<map, key>>,  subs : set]      *)
+(*   c = [recs : id -> entry,  keys : set of <<map, key>>,                   *)
+(*        subs : instance -> subtype PTR name (the first heard)]              *)
 (* as the code has it:                                                       *)
 (*   - five maps (ptr, srv, txt, addr, nsec) from an owner name to a vector  *)
 (*     of records; A and AAAA share the addr map, keyed by the lower-cased   *)
 (*     name, the others are keyed by the name as received;                   *)
 (*   - two records are the same (DnsRecordExt::matches) when map, key, type, *)
-(*     owner spelling, rdata, (SplitByFlush: also the cache-flush bit) and   *)
-(*     - for addresses - the receiving interface agree;                      *)
+(*     owner spelling (addresses: in any letter case), rdata, (SplitByFlush:  *)
+(*     also the cache-flush bit) and - for addresses - the receiving          *)
+(*     interface agree; a record keeps the spelling it was first stored with; *)
 (*   - created / expires / refresh are absolute milliseconds; the marks are   *)
 (*     created + ttl * {800, 850, 900, 950, 1000}.                            *)
 (* The trace specification TraceCache.tla replays every recorded call of the *)
@@ -31,19 +33,27 @@ CONSTANTS EagerKeys,     \* TRUE: the map entry of a name is created before the 
 MapOf(ty) == CASE ty = "PTR" -> "ptr" [] ty = "SRV" -> "srv" [] ty = "TXT" -> "txt"
                [] ty \in {"A", "AAAA"} -> "addr" [] ty = "NSEC" -> "nsec" [] OTHER -> "none"
 KeyOf(r)  == IF MapOf(r.ty) = "addr" THEN r.nl ELSE r.n
-CId(r, idx) == <<MapOf(r.ty), KeyOf(r), r.ty, r.n, r.rk, IF SplitByFlush THEN r.fl ELSE FALSE, IF MapOf(r.ty) = "addr" THEN idx ELSE 0>>
+(* (the owner name of an address record is compared without regard to letter case, the others as spelled) *)
+CId(r, idx) == <<MapOf(r.ty), KeyOf(r), r.ty, IF MapOf(r.ty) = "addr" THEN r.nl ELSE r.n, r.rk, IF SplitByFlush THEN r.fl ELSE FALSE,
+                 IF MapOf(r.ty) = "addr" THEN idx ELSE 0>>
 Pct(cr, ttl, p) == cr + ttl * p * 10
 Ttl(r) == IF r.ttl = 0 THEN 1 ELSE r.ttl          \* the decoder turns the TTL 0 of a response record into 1
 
-Empty == [recs |-> <<>>, keys |-> {}, subs |-> {}, held |-> {}]      \* held: the <<map, key>> under which a record was ever stored
+Empty == [recs |-> <<>>, keys |-> {}, subs |-> <<>>, held |-> {}]      \* held: the <<map, key>> under which a record was ever stored
 Ids(c) == DOMAIN c.recs
 Under(c, m, k) == {x \in Ids(c) : x[1] = m /\ x[2] = k}
 Expired(c, x, t) == t >= c.recs[x].expires
 
+(* prune_subtypes: an instance stays in the subtype table while the subtype PTR it was entered for is held *)
+Prune(subs, recs) ==
+  IF KeepSubs THEN subs
+  ELSE [i \in {j \in DOMAIN subs : \E p \in DOMAIN recs : p[1] = "ptr" /\ p[2] = subs[j] /\ recs[p].tg = j} |-> subs[i]]
+
 (* ------------------------------ add_or_update ---------------------------- *)
 Add(c, r, idx, t, forus) ==
   LET m == MapOf(r.ty)  k == KeyOf(r)  id == CId(r, idx)  ttl == Ttl(r)
-      subs1 == IF r.ty = "PTR" /\ forus /\ r.sub # "" THEN c.subs \cup {r.tg} ELSE c.subs
+      subs1 == IF r.ty = "PTR" /\ forus /\ r.sub # "" /\ r.tg \notin DOMAIN c.subs
+               THEN [i \in DOMAIN c.subs \cup {r.tg} |-> IF i \in DOMAIN c.subs THEN c.subs[i] ELSE r.n] ELSE c.subs
       bucket == Under(c, m, k)
       none == [c |-> [c EXCEPT !.subs = subs1], stored |-> FALSE, new |-> FALSE, ntimers |-> 0]
   IN IF m = "none" THEN none
@@ -59,7 +69,7 @@ Add(c, r, idx, t, forus) ==
                  THEN [recs1[id] EXCEPT !.ttl = ttl, !.created = t, !.expires = Pct(t, ttl, 100),
                                         !.refresh = IF ttl > 1 THEN Pct(t, ttl, 80) ELSE Pct(t, ttl, 100)]
                  ELSE [ttl |-> ttl, created |-> t, expires |-> Pct(t, ttl, 100), refresh |-> Pct(t, ttl, 80),
-                       tg |-> r.tg, tgl |-> r.tgl, src |-> idx, fl |-> r.fl, sub |-> r.sub]
+                       tg |-> r.tg, tgl |-> r.tgl, src |-> idx, fl |-> r.fl, sub |-> r.sub, name |-> r.n]
        IN [c |-> [recs |-> [x \in Ids(c) \cup {id} |-> IF x = id THEN e2 ELSE recs1[x]],
                   keys |-> c.keys \cup {<<m, k>>}, subs |-> subs1, held |-> c.held \cup {<<m, k>>}],
            stored |-> TRUE,
@@ -74,13 +84,13 @@ Evict(c, t) ==
                     <<"srv", i>> \in c.keys /\ \A x \in Under(c, "srv", i) : Expired(c, x, t)}
       left == {x \in Ids(c) : ~Expired(c, x, t)}
       gonePtr == {p \in ptrs : Expired(c, p, t)}
-      subs1 == IF KeepSubs THEN c.subs
-               ELSE c.subs \ {c.recs[p].tg : p \in {q \in gonePtr : c.recs[q].sub # ""}}
-  IN [c |-> [recs |-> [x \in left |-> c.recs[x]],
+      newRecs == [x \in left |-> c.recs[x]]
+      subs1 == IF gonePtr = {} /\ srvGone = {} THEN c.subs ELSE Prune(c.subs, newRecs)
+  IN [c |-> [recs |-> newRecs,
              keys |-> {kk \in c.keys : kk[1] = "ptr"} \cup {<<x[1], x[2]>> : x \in left},
              subs |-> subs1, held |-> c.held],
       svc  |-> {<<p[2], c.recs[p].tg>> : p \in {q \in ptrs : Expired(c, q, t) \/ c.recs[q].tg \in srvGone}},
-      addr |-> {x[4] : x \in {y \in Ids(c) : y[1] = "addr" /\ Expired(c, y, t)}}]
+      addr |-> {c.recs[x].name : x \in {y \in Ids(c) : y[1] = "addr" /\ Expired(c, y, t)}}]
 
 (* --------------------------- service_verify_queries ---------------------- *)
 (* dl = 0: no new deadline (only the queries are wanted)                      *)
@@ -106,10 +116,17 @@ LiveInsts(c, ty, t) == {c.recs[p].tg : p \in {q \in Under(c, "ptr", ty) : ~Expir
 
 RefreshPtr(c, ty, t) ==
   LET S == Under(c, "ptr", ty) IN [c |-> Bump(c, S, t), timers |-> Marks(c, S, t), due |-> {}]
+(* refresh_maybe k times in a row (the look-up visits an instance once per unexpired PTR that points to it) *)
+RECURSIVE BumpN(_, _, _)
+BumpN(e, t, k) == IF k = 0 \/ ~Due(e, t) THEN e ELSE BumpN([e EXCEPT !.refresh = NextMark(e)], t, k - 1)
+RECURSIVE MarksN(_, _, _)
+MarksN(e, t, k) == IF k = 0 \/ ~Due(e, t) THEN {} ELSE {NextMark(e)} \cup MarksN([e EXCEPT !.refresh = NextMark(e)], t, k - 1)
 RefreshSrvTxt(c, ty, t) ==
   LET insts == LiveInsts(c, ty, t)
+      times(i) == Cardinality({p \in Under(c, "ptr", ty) : ~Expired(c, p, t) /\ c.recs[p].tg = i})
       S == UNION {Under(c, "srv", i) \cup Under(c, "txt", i) : i \in insts}
-  IN [c |-> Bump(c, S, t), timers |-> Marks(c, S, t),
+  IN [c |-> [c EXCEPT !.recs = [x \in Ids(c) |-> IF x \in S THEN BumpN(c.recs[x], t, times(x[2])) ELSE c.recs[x]]],
+      timers |-> UNION {MarksN(c.recs[x], t, times(x[2])) : x \in S},
       due |-> {<<i, m>> \in insts \X {"srv", "txt"} : \E x \in Under(c, m, i) : Due(c.recs[x], t)}]
 RefreshHosts(c, ty, t) ==
   LET insts == LiveInsts(c, ty, t)
@@ -120,7 +137,7 @@ RefreshHosts(c, ty, t) ==
 (* refresh_due_hostname_resolutions: one re-query, then the record just expires *)
 RefreshHostname(c, host, t) ==
   LET S == {x \in Under(c, "addr", host) : Due(c.recs[x], t)}
-  IN [c |-> [c EXCEPT !.recs = [x \in Ids(c) |-> IF x \in S THEN [c.recs[x] EXCEPT !.refresh = Pct(@.created, @.ttl, 100)] ELSE c.recs[x]]],
+  IN [c |-> [c EXCEPT !.recs = [x \in Ids(c) |-> IF x \in S THEN [c.recs[x] EXCEPT !.refresh = Pct(c.recs[x].created, c.recs[x].ttl, 100)] ELSE c.recs[x]]],
       timers |-> {}, due |-> {x[5] : x \in S}]
 
 (* --------------------------- remove_service_type ------------------------- *)
@@ -136,7 +153,7 @@ Forget(c, ty) ==
            gone == gone1 \cup UNION {Under(c, "addr", h) : h \in goneHosts}
        IN [recs |-> [x \in Ids(c) \ gone |-> c.recs[x]],
            keys |-> keys1 \ {<<"addr", h>> : h \in goneHosts},
-           subs |-> IF KeepSubs THEN c.subs ELSE c.subs \ {c.recs[p].tg : p \in {q \in ptrs : c.recs[q].sub # ""}},
+           subs |-> Prune(c.subs, [x \in Ids(c) \ gone |-> c.recs[x]]),
            held |-> c.held]
 
 (* ------------------------------ statements ------------------------------- *)
@@ -144,7 +161,7 @@ Forget(c, ty) ==
 (* entry may stay, empty, for a type of which a PTR was once stored              *)
 KeysNeeded(c) == \A kk \in c.keys : Under(c, kk[1], kk[2]) # {} \/ (kk[1] = "ptr" /\ kk \in c.held)
 (* C20: the subtype table only names instances a held subtype PTR points to    *)
-SubsNeeded(c) == \A i \in c.subs : \E p \in Ids(c) : p[1] = "ptr" /\ c.recs[p].tg = i /\ c.recs[p].sub # ""
+SubsNeeded(c) == \A i \in DOMAIN c.subs : \E p \in Under(c, "ptr", c.subs[i]) : c.recs[p].tg = i
 (* C11: lifetime arithmetic                                                     *)
 WellFormed(c) == \A x \in Ids(c) : LET e == c.recs[x] IN
                    /\ e.ttl >= 1 /\ e.expires <= Pct(e.created, e.ttl, 100)
